@@ -284,7 +284,7 @@ CHECKS['C12'] = dict(
           '(an untouched side is the source\'s own matrices; a wholly reduced side the one-point placeholder), and element '
           '(r, c) of the N\' x M\' data is the cell at (position indices of row r ++ spectroscopic indices of column c) read '
           'from the NEW ancillaries (writeReducedAnc_grid: the kept columns are a sub-grid; kept_row: dropping size-1 '
-          'dimensions and renumbering keeps every row; C10 flatten_reads_coordinates / flatten_squeezed_*). Guard: the '
+          'dimensions and renumbering keeps every row; C10 flatten_reads_coordinates / flatten_squeezed_*); file_cells_exact - end to end for a dataset that is the regular grid of its ancillaries (main[r,c] given as an arbitrary function): the cell behind written element (r2, c2) contains main[r,c] for EVERY (r,c) whose remaining coordinates equal those of (r2, c2), nothing else, and has prod(reduced sizes) members. Guard: the '
           'remaining sides have at most as many dimensions as points (KF-D5a) and a wholly reduced side leaves >= 2 '
           'dimensions on the other (otherwise the result is 1-D and link_as_main refuses). The arithmetic of the reduction function is numpy\'s and is not modelled. The model returns the GROUP of every '
           'output cell and the harness applies the reduction function, so float rounding never enters the comparison. '
